@@ -29,7 +29,7 @@ func DumpTx(tx TxReader) (root *Bucket, prob string) {
 	}
 	for i, n := range names {
 		if i > 0 && names[i-1] >= n {
-			prob = fmt.Sprintf("ForEachBucket not strictly ascending: %x then %x", names[i-1], n)
+			prob = fmt.Sprintf("order: ForEachBucket not strictly ascending: %x then %x", names[i-1], n)
 		}
 		b := tx.ReadBucket([]byte(n))
 		if b == nil {
@@ -44,16 +44,25 @@ func DumpTx(tx TxReader) (root *Bucket, prob string) {
 	return root, prob
 }
 
+// MaxDumpDepth bounds the recursion of a dump: a bucket adapter that hands
+// out an ancestor as "nested bucket" would otherwise recurse for ever.
+const MaxDumpDepth = 12
+
 // DumpBucket reads one bucket recursively.
-func DumpBucket(b walletdb.ReadBucket) (out *Bucket, prob string) {
+func DumpBucket(b walletdb.ReadBucket) (out *Bucket, prob string) { return dumpBucket(b, 1) }
+
+func dumpBucket(b walletdb.ReadBucket, depth int) (out *Bucket, prob string) {
 	out = NewBucket()
+	if depth > MaxDumpDepth {
+		return out, fmt.Sprintf("buckets nested deeper than %d: a nested bucket seems to contain itself", MaxDumpDepth)
+	}
 	out.Seq = b.Sequence()
 	var subs []string
 	prev, first := "", true
 	err := b.ForEach(func(k, v []byte) error {
 		ks := string(k)
 		if !first && prev >= ks {
-			prob = fmt.Sprintf("ForEach not strictly ascending: %x then %x", prev, ks)
+			prob = fmt.Sprintf("order: ForEach not strictly ascending: %x then %x", prev, ks)
 		}
 		prev, first = ks, false
 		if nb := b.NestedReadBucket(k); nb != nil {
@@ -74,7 +83,7 @@ func DumpBucket(b walletdb.ReadBucket) (out *Bucket, prob string) {
 		if nb == nil {
 			return out, fmt.Sprintf("nested bucket %x vanished during dump", s)
 		}
-		sub, pr := DumpBucket(nb)
+		sub, pr := dumpBucket(nb, depth+1)
 		out.Sub[s] = sub
 		if pr != "" && prob == "" {
 			prob = pr
